@@ -219,8 +219,13 @@ LackFrom(cfg, s, c, T) ==
 
 Lacks(cfg, s, c) == LackFrom(cfg, s, c, NextT(cfg, s, c))
 
+(* a component that finishes after cfg.comps[c].fin updates (CSV reader at its last row):  *)
+(* it is not updated any more and does not keep the run going                               *)
+Fin(cfg, c) == IF "fin" \in DOMAIN cfg.comps[c] THEN cfg.comps[c].fin ELSE 0
+Finished(cfg, s, c) == Fin(cfg, c) > 0 /\ s.idx[c] >= Fin(cfg, c)
+Active(cfg, s) == {c \in TimeComps(cfg) : ~Finished(cfg, s, c)}
 LeastAdvanced(cfg, s) ==
-  {c \in TimeComps(cfg) : \A d \in TimeComps(cfg) : s.time[c] <= s.time[d]}
+  {c \in Active(cfg, s) : \A d \in Active(cfg, s) : s.time[c] <= s.time[d]}
 
 RECURSIVE ReachFrom(_, _, _, _)
 ReachFrom(cfg, s, R, k) ==
@@ -240,9 +245,12 @@ Available(cfg, s, c) == Lacks(cfg, s, c) = {}
 LacksPlus(cfg, s, c) == ReachFrom(cfg, s, Lacks(cfg, s, c), Len(cfg.comps))
 CycleReachable(cfg, s) == \E c \in Reach(cfg, s) : c \in LacksPlus(cfg, s, c)
 
-AllReached(cfg, s) == \A c \in TimeComps(cfg) : s.time[c] >= cfg.end
+AllReached(cfg, s) == \A c \in TimeComps(cfg) : s.time[c] >= cfg.end \/ Finished(cfg, s, c)
 (* run() is a do-while loop: one update happens even if end <= start *)
-MayUpdate(cfg, s) == s.nupd = 0 \/ ~AllReached(cfg, s)
+MayUpdate(cfg, s) == (s.nupd = 0 \/ ~AllReached(cfg, s)) /\ Active(cfg, s) # {}
+(* a finished producer can not deliver what a consumer still lacks: such a composition is   *)
+(* not valid (the driver refuses to update a finished dependency)                           *)
+FinishedDependency(cfg, s) == \E c \in Reach(cfg, s) : \E p \in Lacks(cfg, s, c) : Finished(cfg, s, p)
 
 ---------------------------------------------------------------------------
 (* The driver as coded (Composition._update_recursive with its shared      *)
@@ -298,7 +306,7 @@ Desc(impl, cfg, s, c, ch, tt) ==
        IN DescDeps(impl, cfg, s, c, key, ch \cup {key}, DrvDeps(impl, cfg, s, c, T, 1, <<>>), 1)
 DescDeps(impl, cfg, s, c, key, ch, deps, i) ==
   IF i > Len(deps) THEN
-     IF IsTime(cfg, c) THEN [r |-> "upd", c |-> c, ch |-> ch]
+     IF IsTime(cfg, c) THEN [r |-> IF Finished(cfg, s, c) THEN "findep" ELSE "upd", c |-> c, ch |-> ch]
      ELSE [r |-> "none", c |-> c, ch |-> IF impl.popPull THEN ch \ {key} ELSE ch]
   ELSE LET d == deps[i] IN
        IF IsTime(cfg, d.p) THEN Desc(impl, cfg, s, d.p, ch, 0)
@@ -319,7 +327,8 @@ RECURSIVE RunImpl(_, _, _, _)
 RunImpl(impl, cfg, s, h) ==
   IF ~MayUpdate(cfg, s) THEN [ph |-> "done", time |-> s.time, h |-> h]
   ELSE LET r == DriverStep(impl, cfg, s) IN
-       IF r.r # "upd" THEN [ph |-> "circ", time |-> s.time, h |-> h]
+       IF r.r = "findep" THEN [ph |-> "err", time |-> s.time, h |-> h]
+       ELSE IF r.r # "upd" THEN [ph |-> "circ", time |-> s.time, h |-> h]
        ELSE LET u == EUpdate(cfg, s, r.c) IN
             IF ~u.ok THEN [ph |-> "err", time |-> s.time, h |-> h]
             ELSE RunImpl(impl, cfg, u.s, [h EXCEPT ![r.c] = Append(@, u.log)])
